@@ -148,6 +148,9 @@ def run(ctx):
             configs.append(('hashrightjoin(cache=%s)' % c, r, (lambda T=T, c=c: etl.hashrightjoin(R, T, key='k', cache=c)), None))
         configs.append(('fromdicts(generator)', r, (lambda T=T: etl.fromdicts((dict(zip(T[0], row)) for row in T[1:]), header=T[0])), None))
         configs.append(('fromdicts(generator,sample)', r, (lambda T=T: etl.fromdicts((dict(zip(T[0], row)) for row in T[1:]), sample=1)), None))
+        # one-shot iterators that are not generators (iter(list), map objects): a table made from one is re-iterable too
+        configs.append(('fromdicts(iterator)', r, (lambda T=T: etl.fromdicts(iter([dict(zip(T[0], row)) for row in T[1:]]), header=T[0])), None))
+        configs.append(('fromdicts(map object)', r, (lambda T=T: etl.fromdicts(map(lambda row: dict(zip(T[0], row)), T[1:]), header=T[0])), None))
         configs.append(('randomtable', r, (lambda r=r: etl.randomtable(2, r, seed=42)), None))
         configs.append(('dummytable', r, (lambda r=r: etl.dummytable(r, seed=42)), None))
         # field functions of dummytable that draw from the module-level generator in ways petl cannot look into
